@@ -156,8 +156,8 @@ var props = map[string]*propCfg{
 	},
 	"C01": {
 		Title:    "every line read once, classified once",
-		Quick:    tierCfg{Runs: 8000, Chunk: 250, DetRuns: 48, ShrinkSec: 60},
-		Thorough: tierCfg{Runs: 600000, Chunk: 2000, DetRuns: 256, ShrinkSec: 240},
+		Quick:    tierCfg{Runs: 8000, Chunk: 250, RaceRuns: 480, DetRuns: 48, ShrinkSec: 60},
+		Thorough: tierCfg{Runs: 600000, Chunk: 2000, RaceRuns: 24000, DetRuns: 256, ShrinkSec: 240},
 		Rule: "one evaluation = one simulated run of the real batchers+extractor pipeline (1-4 files or stdin, 0-40 lines each, drawn matcher/extract/ignore, batch/workers/readers/buffer) under a tape-drawn schedule, read chunking/stalls/latencies, and in odd-indexed runs one injected read error; " +
 			"distinct_nontrivial = distinct schedule hashes (hash of the sequence of (goroutine, site) decisions) among runs that read >= 1 line and had >= 2 goroutines runnable at >= 1 decision",
 		Real:  []string{"pkg/extractor/batchers", "pkg/extractor", "pkg/readahead", "pkg/expressions", "pkg/matchers", "regular files of the kernel"},
@@ -165,8 +165,8 @@ var props = map[string]*propCfg{
 	},
 	"C02": {
 		Title:    "each match carries its true source, line number, text and groups",
-		Quick:    tierCfg{Runs: 8000, Chunk: 250, DetRuns: 48, ShrinkSec: 60},
-		Thorough: tierCfg{Runs: 600000, Chunk: 2000, DetRuns: 256, ShrinkSec: 240},
+		Quick:    tierCfg{Runs: 8000, Chunk: 250, RaceRuns: 480, DetRuns: 48, ShrinkSec: 60},
+		Thorough: tierCfg{Runs: 600000, Chunk: 2000, RaceRuns: 24000, DetRuns: 256, ShrinkSec: 240},
 		Rule: "one evaluation = one simulated pipeline run whose consumer retains every Match until the run is over and only then reads Line/Indices/Source/LineNumber/Extracted; compared with stdlib regexp / a reference dissect / a sequential expression evaluation on private copies; " +
 			"distinct_nontrivial = distinct schedule hashes among runs that emitted >= 1 match and had >= 2 goroutines runnable at >= 1 decision",
 		Real:  []string{"pkg/extractor/batchers", "pkg/extractor", "pkg/readahead", "pkg/expressions", "pkg/matchers", "pkg/slicepool"},
